@@ -570,6 +570,8 @@ def capitalize(val):
 
 
 def spacify(val):
+    if isinstance(val, bytes):
+        return val.replace(b'_', b' ')
     if val.find('_') >= 0:
         val = val.replace('_', ' ')
     return val
